@@ -43,8 +43,21 @@ K_MAX_EARLY = "max cost: rule finalised before all its productions are complete 
 K_MS = "min_sentence: scan continues after descending into a rule (missing break)"
 
 
-def case_line(src, costs):
-    return "O %s ; %s" % (src.encode().hex(), " ".join("%s=%d" % (k, v) for k, v in sorted(costs.items())))
+# query orders on ONE SentenceGenerator (harness c17 `order_steps`); 0 = every query group on its own fresh generator.
+# The generator caches what its first queries compute: the answers are demanded to be the model's whatever the order.
+ORDERS = {0: "own generator per query group (min | min_sentence, min_sentences | max)",
+          1: "one generator: max, min, min_sentence, min_sentences",
+          2: "one generator: min, max, min_sentence, min_sentences",
+          3: "one generator: min_sentence, max, min, min_sentences",
+          4: "one generator: min_sentences, max, min, min_sentence",
+          5: "one generator: every query twice (min min max max min_sentence x2 min_sentences x2 max min)",
+          6: "one generator: per rule min max min_sentence, twice; then max, min_sentences, min",
+          7: "one generator: max, min_sentences, min_sentence, min, max"}
+
+
+def case_line(src, costs, order=0):
+    return "O %s%s ; %s" % (src.encode().hex(), " ord=%d" % order if order else "",
+                            " ".join("%s=%d" % (k, v) for k, v in sorted(costs.items())))
 
 
 def sections(line):
@@ -61,11 +74,26 @@ class Impl:
         self.nul, self.fi, self.fo, self.hp = set(), {}, {}, set()
         self.cost, self.min, self.max, self.ms, self.mss, self.mssbig = {}, {}, {}, {}, {}, {}
         self.flags = {}
+        self.order = 0
+        self.unstable = []        # (query, rule, first answer, later answer): a repeated query answered differently
+        seen = {}
         for s in self.secs:
             if not s:
                 continue
             k = s[0]
-            if k == "NUL":
+            if k in ("MIN", "MAX", "MS", "MSS", "MSSBIG") and len(s) > 1:
+                a, b = seen.get((k, s[1])), s[2:]
+                if k == "MSS" and a is not None:
+                    # min_sentences: order and duplicates are free
+                    canon = lambda v: sorted(set(" ".join(v).split(";")))
+                    if canon(a) != canon(b):
+                        self.unstable.append((k, int(s[1]), " ".join(a), " ".join(b)))
+                elif a is not None and a != b:
+                    self.unstable.append((k, int(s[1]), " ".join(a), " ".join(b)))
+                seen.setdefault((k, s[1]), b)
+            if k == "ORD":
+                self.order = int(s[1])
+            elif k == "NUL":
                 self.nul = set(map(int, s[1:]))
             elif k == "FI":
                 self.fi[int(s[1])] = set(map(int, s[2:]))
@@ -350,6 +378,12 @@ def cost_corpus():
         Gram("xy", [("S", [[r("A"), t("y")]]), ("A", [[r("A")], [t("x")], [r("U"), r("A"), t("y")]]), ("U", [[r("U")]])]),
         # a bounded rule above an unbounded one and beside a bounded one
         Gram("xy", [("S", [[r("A"), r("B")], [r("B")]]), ("A", [[r("A"), t("x")], []]), ("B", [[r("B")], [t("y"), t("y")]])]),
+        # an unproductive rule inside the (only) recursive production of a bounded rule: A derives only 'x'
+        Gram("xyz", [("A", [[t("x")], [r("A"), r("B"), t("y")]]), ("B", [[r("B"), t("z")]])]),
+        # the same below the start rule, the unproductive rule first / two levels down / beside a nullable rule
+        Gram("xyz", [("S", [[r("A"), t("z")]]), ("A", [[t("x")], [r("B"), r("A")]]), ("B", [[r("B"), t("y")]])]),
+        Gram("xyz", [("S", [[r("A")], [r("S"), r("C"), t("z")]]), ("A", [[t("x"), t("x")], [r("N"), r("A"), r("C")]]), ("C", [[r("B")]]),
+                     ("B", [[r("B"), t("y")], [r("C")]]), ("N", [[]])]),
     ]
 
 
@@ -417,6 +451,32 @@ def gen_cases(ctx, n):
     return cases
 
 
+def gen_orders(ctx, cases):
+    """the query order of each case (drawn after the grammars so that these stay what they were)"""
+    rng = ctx.rng
+    ncorpus = sum(1 for c in cases if c[0] == "corpus")
+    orders = []
+    for i, c in enumerate(cases):
+        if c[0] == "corpus":
+            orders.append(i % len(ORDERS))
+        else:
+            orders.append(rng.choice(sorted(ORDERS)))
+    return orders
+
+
+def corpus_all_orders(cases):
+    """every corpus grammar with unit costs under every one-generator order"""
+    out, seen = [], set()
+    for fam, g, costs in cases:
+        if fam != "corpus" or id(g) in seen:
+            continue
+        seen.add(id(g))
+        for o in sorted(ORDERS):
+            if o:
+                out.append((("corpus", g, {x: 1 for x in g.tokens}), o))
+    return out
+
+
 # ---- evaluation ---------------------------------------------------------------------------------
 
 class Reporter:
@@ -436,11 +496,11 @@ def names(g):
     return {"rules": {str(k): v for k, v in sorted(g.rnames.items())}, "tokens": {str(k): v for k, v in sorted(g.tnames.items())}}
 
 
-def evaluate(ctx, rep, fam, src, costs, im, mo, bad):
+def evaluate(ctx, rep, fam, src, costs, im, mo, bad, order=0):
     """compare one case; `bad` collects the aspects with a difference"""
     g = cfg.DGram(im.secs)
-    base = {"grammar": src, "costs_by_token_name": costs, "names": names(g),
-            "replay_cmd": "echo '%s' | .work/target/release/c17 | tee /dev/stderr | .work/ocaml/c17/gvm_c17" % case_line(src, costs)}
+    base = {"grammar": src, "costs_by_token_name": costs, "names": names(g), "query_order": ORDERS[order],
+            "replay_cmd": "echo '%s' | .work/target/release/c17 | tee /dev/stderr | .work/ocaml/c17/gvm_c17" % case_line(src, costs, order)}
     rn = lambda r: "%s(%d)" % (g.rnames.get(r, "?"), r)
     tn = lambda t: "%s(%d)" % (g.tnames.get(t, "$" if t == g.eof else "?"), t)
     rules = range(g.nrules)
@@ -496,6 +556,13 @@ def evaluate(ctx, rep, fam, src, costs, im, mo, bad):
     # ---- costs
     if "nocost" in im.flags:
         return
+    if im.unstable:
+        # one generator asked the same question twice: whichever answer is the true one, the other is not
+        bad.add("query-order")
+        k, r, a, b = im.unstable[0]
+        rep.violation(dict(base, what="the same query on one SentenceGenerator is answered differently the second time "
+                           "(at most one of the answers is the true value)", query={"MIN": "min_sentence_cost", "MAX": "max_sentence_cost",
+                           "MS": "min_sentence", "MSS": "min_sentences", "MSSBIG": "min_sentences"}[k], rule=rn(r), first=a, later=b))
     fx_consistency(ctx, rep, base, g, mo, rn, bad)
     if COSTS_FIXED:
         costs_fixed(ctx, rep, base, g, im, mo, rn, tn, bad)
@@ -744,8 +811,12 @@ def run(ctx):
     exe = core.build_harness("c17")
     mexe = core.build_model("c17")
     cases = gen_cases(ctx, ctx.n(1000, 12000))
+    orders = gen_orders(ctx, cases)
+    extra = corpus_all_orders(cases)
+    cases += [c for c, _ in extra]
+    orders += [o for _, o in extra]
     srcs = [g.render() for _, g, _ in cases]
-    lines = [case_line(s, c[2]) for s, c in zip(srcs, cases)]
+    lines = [case_line(s, c[2], o) for s, c, o in zip(srcs, cases, orders)]
     # pass 1: analyses only (cannot hang); model on the implementation's own dump
     p1 = core.run_lines([exe, "nocost"], lines)
     # tie of the PROVED mirrors of YaccFirsts::new / YaccFollows::new (C17/MirrorProofs.v) to the code
@@ -788,7 +859,7 @@ def run(ctx):
             p2[i] = (o2, args)
     rep = Reporter(ctx)
     aspects = ["nullable", "first", "has_path", "follow", "min", "min-termination", "min-mirror", "max", "max-termination",
-               "min_sentence", "min_sentences", "analyses-panic", "uncertified", "lost", "fx-mirror", "fx-vs-certified"]
+               "min_sentence", "min_sentences", "analyses-panic", "uncertified", "lost", "fx-mirror", "fx-vs-certified", "query-order"]
     failed = set()
     for i, (fam, gr, costs) in enumerate(cases):
         im1, mo = impl1[i], models[i]
@@ -818,7 +889,11 @@ def run(ctx):
             rep.violation({"what": "two runs on the same grammar give different analyses", "grammar": srcs[i]})
             failed.add("lost")
         bad = set()
-        evaluate(ctx, rep, fam, srcs[i], costs, im, mo, bad)
+        if args != ["nocost"] and "nocost" not in im.flags and im.order != orders[i]:
+            rep.violation({"what": "harness answered under another query order than asked (tool defect)", "line": lines[i]}, no_input=True)
+            bad.add("lost")
+        ctx.count("query_order_%d" % orders[i])
+        evaluate(ctx, rep, fam, srcs[i], costs, im, mo, bad, orders[i])
         failed |= bad
         g = cfg.DGram(im.secs)
         nontriv = bool(mo.nul) or any(a == b for a, b in mo.hp)
@@ -837,7 +912,12 @@ def run(ctx):
                             "DAGs in shuffled declaration order, added unreachable rules, rule cycles whose round trip gains cost through siblings of "
                             "different kinds (nullable only / token levels down / single token / unproductive), hand-written corpus; token costs 1..255 (uniform, narrow "
                             "or wide ranges); every rule x token (FIRST, FOLLOW), every rule pair (has_path), every rule (epsilon, min, max, "
-                            "min_sentence, min_sentences); non-trivial = some rule is nullable or recursive; distinct by case line")
+                            "min_sentence, min_sentences); the cost queries of a case are made either on fresh generators per query group or on ONE "
+                            "generator in one of 7 orders (max first / min first / min_sentence first / min_sentences first / every query twice / "
+                            "interleaved per rule / max first and last), order drawn per case, every corpus grammar under every order: the answers "
+                            "must be the model's whatever the order and a repeated query must repeat its answer; "
+                            "non-trivial = some rule is nullable or recursive; distinct by case line")
+    ctx.coverage["query_orders"] = {str(k): ctx.hist.get("query_order_%d" % k, 0) for k in sorted(ORDERS)}
     ctx.coverage["exhaustive"] = False
     ctx.coverage["aspects_with_a_difference"] = sorted(failed)
     ctx.assumptions += [
